@@ -1,15 +1,19 @@
 package c16
 
 import (
+	"bufio"
 	"bytes"
 	"crypto/sha1"
 	"encoding/base64"
 	"fmt"
 	"io"
 	"math/rand"
+	"net"
+	"net/http"
 	"net/url"
 	"strings"
 	"testing"
+	"time"
 
 	"github.com/gobwas/httphead"
 	"github.com/gobwas/ws"
@@ -187,16 +191,29 @@ func TestHandshakeWriteFaults(t *testing.T) {
 			head := validRequest(t)
 			rec := tx.NewRec()
 			rec.FailAt, rec.Short = failAt, short
-			u := ws.Upgrader{WriteBufferSize: bufsz, Protocol: func([]byte) bool { return true }, Extension: func(httphead.Option) bool { return true }}
-			_, err := u.Upgrade(tx.RW{Reader: tx.NewSrc([]byte(head), nil), Writer: rec})
+			var err error
+			kind := "Upgrader"
+			if rapid.IntRange(0, 2).Draw(t, "httpupgrader") == 0 {
+				// the net/http flavoured upgrader writes the 101 to the hijacked connection
+				kind = "HTTPUpgrader"
+				req, perr := http.ReadRequest(bufio.NewReader(strings.NewReader(head)))
+				if perr != nil {
+					t.Fatalf("harness: net/http refused the request: %v\n%q", perr, head)
+				}
+				hu := ws.HTTPUpgrader{Protocol: func(string) bool { return true }, Extension: func(httphead.Option) bool { return true }}
+				_, _, _, err = hu.Upgrade(req, &hijackWriter{conn: recConn{rec: rec}, hdr: http.Header{}})
+			} else {
+				u := ws.Upgrader{WriteBufferSize: bufsz, Protocol: func([]byte) bool { return true }, Extension: func(httphead.Option) bool { return true }}
+				_, err = u.Upgrade(tx.RW{Reader: tx.NewSrc([]byte(head), nil), Writer: rec})
+			}
 			hx.Eval()
-			hx.Class(fmt.Sprintf("handshake/write-fault/server/failed=%v", rec.Failed))
+			hx.Class(fmt.Sprintf("handshake/write-fault/server:%s/failed=%v", kind, rec.Failed))
 			if rec.Failed {
-				hx.NonTrivial(hx.Hash("wf-srv", head, bufsz, failAt, short), func() interface{} {
+				hx.NonTrivial(hx.Hash("wf-srv", kind, head, bufsz, failAt, short), func() interface{} {
 					return map[string]interface{}{"kind": "server write fault", "request": head, "write_buffer": bufsz, "fail_at_write": failAt, "accepted_of_failing_write": short}
 				})
 				if err == nil {
-					t.Fatalf("Upgrader.Upgrade reported success although destination write %d failed (%d bytes of the response reached the peer)\nrequest: %q", failAt, rec.Len(), head)
+					t.Fatalf("%s.Upgrade reported success although destination write %d failed (%d bytes of the response reached the peer)\nrequest: %q", kind, failAt, rec.Len(), head)
 				}
 			} else if err != nil {
 				t.Fatalf("harness: valid request refused: %v\n%q", err, head)
@@ -228,6 +245,31 @@ func TestHandshakeWriteFaults(t *testing.T) {
 		}
 	})
 }
+
+// hijackWriter hands an in-memory connection to HTTPUpgrader.
+type hijackWriter struct {
+	conn net.Conn
+	hdr  http.Header
+}
+
+func (h *hijackWriter) Header() http.Header         { return h.hdr }
+func (h *hijackWriter) Write(p []byte) (int, error) { return len(p), nil }
+func (h *hijackWriter) WriteHeader(int)             {}
+func (h *hijackWriter) Hijack() (net.Conn, *bufio.ReadWriter, error) {
+	return h.conn, bufio.NewReadWriter(bufio.NewReader(h.conn), bufio.NewWriter(h.conn)), nil
+}
+
+type recConn struct {
+	net.Conn
+	rec *tx.Rec
+}
+
+func (c recConn) Write(p []byte) (int, error)      { return c.rec.Write(p) }
+func (c recConn) Read(p []byte) (int, error)       { return 0, io.EOF }
+func (c recConn) SetDeadline(time.Time) error      { return nil }
+func (c recConn) SetWriteDeadline(time.Time) error { return nil }
+func (c recConn) SetReadDeadline(time.Time) error  { return nil }
+func (c recConn) Close() error                     { return nil }
 
 // failingPeer fails the failAt-th Write of the dialer (accepting short bytes of it) and every later one.
 type failingPeer struct {
